@@ -1537,15 +1537,16 @@ def resolve_target_selectors(
             if bytes.fromhex(fun_selector) in target_selectors:
                 yield (fun_sig, fun_selector)
 
-    elif excluded_selectors := ctx.excluded_selectors.get(addr):
-        for fun_sig, fun_selector in method_identifiers:
-            if bytes.fromhex(fun_selector) not in excluded_selectors:
-                yield (fun_sig, fun_selector)
-
     else:
+        # excludeSelector only removes functions from the default selection below
+        excluded_selectors = ctx.excluded_selectors.get(addr, frozenset())
         is_test_contract = eq(addr, FOUNDRY_TEST)
 
         for fun_sig, fun_selector in method_identifiers:
+            if bytes.fromhex(fun_selector) in excluded_selectors:
+                debug(f"Skipping {fun_sig} (excluded selector)")
+                continue
+
             # skip if 'pure' or 'view' function that doesn't change the state
             if (state_mutability := abi[fun_sig]["stateMutability"]) in [
                 "pure",
